@@ -840,3 +840,15 @@ package cbor
 //@   ensures forall j in old(ncalls(cbor2JsonOneObject))..ncalls(cbor2JsonOneObject): callarg(cbor2JsonOneObject, j, 1) == dst
 //@   loop 1:
 //@     invariant forall j in old(ncalls(cbor2JsonOneObject))..ncalls(cbor2JsonOneObject): callarg(cbor2JsonOneObject, j, 1) == dst
+
+// tag 260 (network address): the text is net.IP.String / net.HardwareAddr.String
+// of the payload bytes (the same library functions the JSON build uses). Only this
+// clause is checked here (props NONE): the function's safety obligations belong to
+// the C17 sweep, which generates them in its own mode.
+//@ track IP.String, HardwareAddr.String
+//@ func decodeTagData(src) res
+//@   props NONE
+//@   arith bv
+//@   flag tags binary_log
+//@   requires src != nil
+//@   ensures [C08] old(len(content(src))) > 2 && old(content(src))[0] == 0xd9 && old(content(src))[1] == 1 && old(content(src))[2] == 4 ==> ncalls(IP.String) + ncalls(HardwareAddr.String) == old(ncalls(IP.String)) + old(ncalls(HardwareAddr.String)) + 1
